@@ -90,6 +90,7 @@ type docSpec struct {
 	Pages      int
 	MaxPara    int // byte size of the largest paragraphs to generate
 	NoHeadings bool
+	DeepLevels bool // heading levels up to 9 (DOCX Heading 7-9, ODF outline levels) instead of 6
 }
 
 type genInfo struct {
@@ -151,8 +152,18 @@ func buildDoc(r *rand.Rand, spec docSpec) (*model.Document, *genInfo) {
 				if level < 1 {
 					level = 1
 				}
+				maxLevel := 6
+				if spec.DeepLevels {
+					maxLevel = 9
+					if lastLevel >= 4 && r.Intn(2) == 0 {
+						level = lastLevel + 1 // keep descending once deep
+					}
+				}
+				if level > maxLevel {
+					level = maxLevel
+				}
 				if level > 6 {
-					level = 6
+					info.Features["level>6"] = true
 				}
 				if lastLevel > 0 && level > lastLevel+1 {
 					info.Features["skipped-level"] = true
